@@ -307,7 +307,8 @@ func (r Ring) MultByMonomial(p1 Poly, k int, p2 Poly) {
 
 	N := r.N()
 
-	shift := (k + (N << 1)) % (N << 1)
+	// Normalizes k to [0, 2N), also for k < -2N (the remainder of a negative dividend is negative).
+	shift := ((k % (N << 1)) + (N << 1)) % (N << 1)
 
 	if shift == 0 {
 
